@@ -190,10 +190,12 @@ func (l *Ledger) wrote(c *connLedger, s, peer *sendSide, f *Frame) {
 			if sa == 0 {
 				e.Probe("stream_window_exhausted")
 			}
-			if ca < 0 {
+			// a zero-length DATA frame (e.g. a bare END_STREAM) needs no credit,
+			// even when a lowered INITIAL_WINDOW_SIZE made the window negative
+			if ca < 0 && f.Length > 0 {
 				e.Violate("conn_window_exceeded", "%s exceeded the connection window on conn %d by %d bytes (DATA len %d on stream %d; granted %d, sent %d)", who(f.From), f.Conn, -ca, f.Length, f.StreamID, defaultWindow+s.connUpd, s.connSent)
 			}
-			if sa < 0 {
+			if sa < 0 && f.Length > 0 {
 				e.Violate("stream_window_exceeded", "%s exceeded the window of stream %d on conn %d by %d bytes (DATA len %d; initial window %d, updates %d, sent %d)", who(f.From), f.StreamID, f.Conn, -sa, f.Length, s.iwsEff(), st.upd, st.sent)
 			}
 		}
